@@ -330,6 +330,8 @@ def template_cond(draw, ctx: Ctx, force=None):
         T += ["truth_then_nested_use"]
     if cfg.allow_preds and cfg.allow_any and "tval" not in cfg.exclude_leaves:
         T += ["truth_or_value_pred"]
+    if cfg.allow_truth and cfg.allow_not and "tval" not in cfg.exclude_leaves:
+        T += ["plain_and_negated_same_truth"]
     if n >= 2:
         T += [t_ for t_ in cfg.extra_templates if n >= 3 or not t_.startswith("indep_")]
     t = force or draw(st.sampled_from(T))
@@ -364,6 +366,17 @@ def template_cond(draw, ctx: Ctx, force=None):
                                        ["not", "not_", ["in", "in_", ["const", draw(st.sampled_from(["x", "y"]))], T_]],
                                        ["cmp", "!=", T_, ["const", draw(st.sampled_from(["x", "xy"]))]]]))
         return ["and", f(), [["truth", T_], second]]
+    if t == "plain_and_negated_same_truth":
+        # the same attribute / call written twice (two accesses, e.g. x.o and again x.o), once plain and once negated:
+        # or_(and_(x.o, A), and_(not_(x.o), B)); negating one occurrence must not touch the other
+        x = draw(st.integers(0, n - 1))
+        e = ent_term(draw, ctx, x) if chance(draw, 1, 3) else ["var", x]
+        what = draw(st.sampled_from(["o", "o", "s", "tags", "a", "is_big"]))
+        T_ = ["call", e, "is_big", []] if what == "is_big" else ["attr", e, what]
+        pos = ["and", f(), [["truth", T_], leaf(draw, ctx, [x])]]
+        neg = ["and", f(), [["not", draw(st.sampled_from(["not_", "~"])), ["truth", T_]], leaf(draw, ctx, [x])]]
+        parts = [pos, neg] if draw(st.booleans()) else [neg, pos]
+        return [draw(st.sampled_from(["or", "or", "and"])), f(), parts]
     if t == "truth_or_value_pred":
         # f = x.o stands in condition position AND is passed on, as a value, to a predicate - in one disjunction, so that
         # the rows on which f is falsy reach the predicate: or_(f, HasType(f, int)), or_(p_val_eq(f, 0), f, ...)
